@@ -1,10 +1,13 @@
 #!/bin/bash
 # usage: tools_try_seed.sh <seed dir name under /verif/seeded> <property> [--only regex]
-# applies the seeded change to /repo, runs the property's quick check, restores /repo. Prints the verdict.
+# Applies the seeded change to a scratch worktree of /repo's HEAD (never to /repo itself), runs the property's
+# check against it (VERIF_REPO), removes the worktree. Prints the verdict.
 S=$1; P=$2; shift 2
-cd /repo || exit 9
-git diff --quiet || { echo "REPO DIRTY: commit or stash first"; exit 9; }
-PF=/verif/seeded/$S/patch.diff; [ -f /verif/seeded/$S/patch_on_fixed_tree.diff ] && PF=/verif/seeded/$S/patch_on_fixed_tree.diff; git apply $PF || { echo "PATCH DOES NOT APPLY"; exit 8; }
-cd /verif; timeout 3000 python3 run_check.py $P "$@" > /tmp/try_$S.log 2>&1; rc=$?
-cd /repo; git checkout -- . 
+WT=/tmp/wt/try_$S_$$
+mkdir -p /tmp/wt
+git -C /repo worktree add --detach $WT HEAD > /dev/null 2>&1 || { echo "cannot create worktree"; exit 9; }
+PF=/verif/seeded/$S/patch.diff; [ -f /verif/seeded/$S/patch_on_fixed_tree.diff ] && PF=/verif/seeded/$S/patch_on_fixed_tree.diff
+if ! git -C $WT apply $PF; then echo "seed=$S PATCH DOES NOT APPLY"; git -C /repo worktree remove --force $WT; exit 8; fi
+cd /verif; VERIF_REPO=$WT VERIF_EVIDENCE_DIR=/tmp/try_evidence timeout 3000 python3 run_check.py $P "$@" > /tmp/try_$S.log 2>&1; rc=$?
+git -C /repo worktree remove --force $WT
 echo "seed=$S prop=$P rc=$rc $(grep -c '^VIOLATION' /tmp/try_$S.log) violation line(s)"; grep -E "^VIOLATION|^INCONCLUSIVE|FAILED:" /tmp/try_$S.log | cut -c1-220 | head -8
